@@ -2,5 +2,6 @@ SPECIFICATION Spec
 CONSTANTS
   MaxLen = 3
   LongLens = {8}
+  UniformLens = {}
   Emit = FALSE
 PROPERTIES Terminates
